@@ -88,7 +88,7 @@ TEnd    == Is("end") /\ PrintT(<<"CONFORMS", cid>>) /\ UNCHANGED vars
 
 Hidden  == /\ UNCHANGED <<l, nxt, cid, early>>
            /\ \/ UNCHANGED todo /\ \E p \in Writers : PCStart(p) \/ PCDecide(p) \/ RollbackDone(p) \/ AbortDone(p) \/ CommitDone(p)
-              \/ UNCHANGED todo /\ \E m \in reqs : m.sl /\ version[m.from] # m.ov /\ Wake(m)
+              \/ UNCHANGED todo /\ \E m \in reqs : m.sl /\ ~ShouldRetry(m) /\ Wake(m)
               \/ \E p \in Writers : /\ todo[p] # "" /\ todo' = [todo EXCEPT ![p] = ""]
                                       /\ IF todo[p] = "commit" THEN CommitStart(p) ELSE AbortCall(p)
 
